@@ -979,6 +979,19 @@ func checkSnapshotImmutable(c *Ctx, rule string) {
 			}
 		case *ssa.ChangeType:
 			return fromSnap(x.X, d+1)
+		case *ssa.Parameter:
+			// a helper's slice parameter: the snapshot when some caller passes it
+			g := x.Parent()
+			idx := paramIndex(g, x)
+			for _, ed := range p.callersOf(g) {
+				if p.isTestFn(ed.Caller.Func) {
+					continue
+				}
+				args := ed.Site.Common().Args
+				if idx < len(args) && fromSnap(args[idx], d+1) {
+					return true
+				}
+			}
 		case *ssa.UnOp:
 			if x.Op != token.MUL {
 				return false
@@ -1037,6 +1050,16 @@ func checkSnapshotImmutable(c *Ctx, rule string) {
 					if fromSnap(a, 0) {
 						nbad++
 						c.Fail(rule, fmt.Sprintf("snapshot sorted in place in %s", fnKey(fn)), in.Pos(), "the shared healthy-hosts snapshot is handed to an in-place sort: every other reader (balancers, SCAN node order) sees the elements move")
+					}
+				}
+			}
+			// append(snapshot[:i], ...) and copy(snapshot[i:], ...) write into the snapshot's backing array
+			if call, ok := in.(*ssa.Call); ok && (isBuiltin(call, "append") || isBuiltin(call, "copy")) {
+				dst := call.Call.Args[0]
+				if sl, isSl := dst.(*ssa.Slice); isSl && fromSnap(sl.X, 0) {
+					if st2, ok := sl.X.Type().Underlying().(*types.Slice); ok && strings.HasSuffix(types.TypeString(st2.Elem(), nil), "host.Host") {
+						nbad++
+						c.Fail(rule, fmt.Sprintf("snapshot overwritten by %s in %s", call.Call.Value.Name(), fnKey(fn)), in.Pos(), "a sub-slice of the slice returned by Healthy() is the destination of append/copy: the elements behind it are overwritten in the cache every reader shares - a still-healthy host disappears from the candidate list and another one is listed twice until the next rebuild")
 					}
 				}
 			}
